@@ -962,10 +962,10 @@ impl<'a, 'b> G<'a, 'b> {
         let name = self.fresh("Comp");
         let (p1, p2) = if self.k.tsx {
             let t = self.ts_type(0);
-            let d = match self.c.pick(6) {
+            let d = match self.c.pick(7) {
                 0 => String::new(),
                 1 => " = { k1: 1, n: f() }".to_string(),
-                2 => " = p".to_string(),
+                2 | 6 => " = p".to_string(),
                 3 => " = { ...p, [x]: 1, get k1() { return 1; }, m1() {}, async am() {} }".to_string(),
                 // JSX inside the defaults (copied into the derived props option)
                 4 => {
@@ -996,12 +996,13 @@ impl<'a, 'b> G<'a, 'b> {
         } else {
             format!("function ({p1}{p2}) {{ return () => {body}; }}")
         };
-        let opts = match self.c.pick(7) {
+        let opts = match self.c.pick(9) {
             0 | 1 => String::new(),
             2 => ", { name: \"N\" }".to_string(),
             3 => ", { props: [\"z\"], \"emits\": [] }".to_string(),
             4 => ", o".to_string(),
             5 => ", { ...o, inheritAttrs: false }".to_string(),
+            6 => ", ...xs, o".to_string(),
             _ => ", ...xs".to_string(),
         };
         if has_dc && self.c.chance(1, 4) {
